@@ -689,3 +689,31 @@ where
         Ok(())
     }
 }
+
+#[cfg(feature = "verif-hooks")]
+impl<G: AffineRepr, T: BorrowMut<Transcript>> super::VerifTamper<G::ScalarField>
+    for Verifier<G, T>
+{
+    fn verif_overwrite_gate(
+        &mut self,
+        _: usize,
+        _: G::ScalarField,
+        _: G::ScalarField,
+        _: G::ScalarField,
+    ) {
+    }
+}
+
+#[cfg(feature = "verif-hooks")]
+impl<G: AffineRepr, T: BorrowMut<Transcript>> super::VerifTamper<G::ScalarField>
+    for RandomizingVerifier<G, T>
+{
+    fn verif_overwrite_gate(
+        &mut self,
+        _: usize,
+        _: G::ScalarField,
+        _: G::ScalarField,
+        _: G::ScalarField,
+    ) {
+    }
+}
